@@ -284,10 +284,10 @@ def runM (s : DState) (name : String) (args : List SExp) : M String := do
   | "unique", [t, l] =>
     let E ← getTy s t
     let xs ← getList env E l
-    let useMap := uniqueUsesMap env E
+    let useMap := uniqueUsesMapM env E
     let d := Spec.dedupFirst (specEq env E) xs.elems
     let spec := if useMap then showSortedE canonN d else showE d
-    let model := match unique useMap id (HashM.top env E) (EqualM.top env E) xs with
+    let model := match unique useMap id (uniqueHashM env E) (EqualM.top env E) xs with
       | .panic => "panic"
       | .ok (out, after) =>
         if useMap then
@@ -298,7 +298,8 @@ def runM (s : DState) (name : String) (args : List SExp) : M String := do
   | "set", [t, l] =>
     let E ← getTy s t
     let xs ← getList env E l
-    let spec := showSortedE canonN (Spec.dedupFirst (specEq env E) xs.elems)
+    -- the keys of a Go map are a set modulo `==`, whatever Equal method the key type declares
+    let spec := showSortedE canonN (Spec.dedupFirst (Spec.structEq env E) xs.elems)
     let out := Lists.set xs
     pure (ans (showSortedE canonN out ++ ";s," ++ showSortedE canon out) spec)
   | "unionl", [t, a, b] =>
